@@ -43,4 +43,5 @@ def run(ctx):
     E.r08_2_user_code(ctx, 'R02.15')
     R3.r04_10_key_test_table(ctx, 'R02.16')
     R3.r11_7_per_call_loader(ctx, 'R02.17')
+    R3.r01_13_extras_partition(ctx, 'R02.18')
     S.r01_3_recursion(ctx)
